@@ -34,7 +34,7 @@ CLAIM = dict(
 TRUSTED = [
     "modelled: write_hr_file, get_system_hr (text part), write_WCC_WT_format, read_WCC_WT_format, write_tb_file, "
     "get_system_tb (all three option flags), to_npz/load_npz on the file-name level, PointSymmetry.as_dict/__init__, "
-    "the closure loop of PointGroup.__init__",
+    "the generator reading (duplicates dropped) and closure loop of PointGroup.__init__",
     "not modelled (oracle only): np.savez/np.load of the arrays, Rvectors construction, do_at_end_of_init, evaluate_k",
     "Python float formatting '%15.8e' / repr and float() parsing: modelled as rho / identity; the Lean driver's exact "
     "implementation of %15.8e is compared with Python on every token of every written file",
@@ -380,6 +380,9 @@ def corr(ctx):
                  "TimeReversal*C2x", "C4z*Inversion"]
     for it in range(ctx.n(8, 30)):
         gens = rng.sample(gens_pool, rng.randint(0, 3))
+        if gens and rng.random() < 0.4:
+            gens = gens + [rng.choice(gens)]          # a generator listed twice is ignored when the list is read
+            rng.shuffle(gens)
         with ctx.attempt("PointGroup closure", dict(generators=gens)):
             with quiet():
                 pg = PointGroup(list(gens), real_lattice=np.eye(3))
